@@ -352,6 +352,12 @@ func runProperty(pr *Property, env *Env, tier string, seed int64, lean leanResul
 		}
 	}
 
+	engineMu.Lock()
+	if len(engineViolations) > 0 && brokenObligation == "" {
+		brokenObligation = "obligation: assumption EngineShape.balanced (the engine prints balanced text) is violated by the pinned rassemble-go: " + engineViolations[0]
+	}
+	joinsMonitored := engineJoins
+	engineMu.Unlock()
 	exit := 0
 	violations := 0
 	var violationLines []string
@@ -440,27 +446,28 @@ func runProperty(pr *Property, env *Env, tier string, seed int64, lean leanResul
 		}
 	}
 	cov := map[string]interface{}{
-		"obligations":                  lean.obligations,
-		"discharged":                   lean.discharged,
-		"checker_cmd":                  lean.cmd,
-		"trusted_base":                 trustedBase,
-		"theorems":                     lean.theorems,
-		"partial_theorems":             lean.partial,
-		"evaluations":                  len(outcomes),
-		"distinct_nontrivial":          nontrivial,
-		"rule":                         pr.Rule,
-		"samples":                      samples,
-		"programs":                     len(outcomes),
-		"disagreements_checked":        nOps,
-		"oracle_evaluations":           nOracles,
-		"correspondence_rows":          pr.Corr,
-		"model_vs_code_disagreements":  nDis,
-		"oracle_failures":              nFail,
-		"attributed_to_known_findings": attributed,
-		"input_distribution":           kinds,
-		"implementation_outcomes":      opStatus,
-		"known_finding_lines":          findingLines,
-		"harness_errors":               len(harnessErrs),
+		"obligations":                            lean.obligations,
+		"discharged":                             lean.discharged,
+		"checker_cmd":                            lean.cmd,
+		"trusted_base":                           trustedBase,
+		"theorems":                               lean.theorems,
+		"partial_theorems":                       lean.partial,
+		"evaluations":                            len(outcomes),
+		"distinct_nontrivial":                    nontrivial,
+		"rule":                                   pr.Rule,
+		"samples":                                samples,
+		"programs":                               len(outcomes),
+		"disagreements_checked":                  nOps,
+		"oracle_evaluations":                     nOracles,
+		"correspondence_rows":                    pr.Corr,
+		"model_vs_code_disagreements":            nDis,
+		"oracle_failures":                        nFail,
+		"attributed_to_known_findings":           attributed,
+		"engine_join_results_monitored_balanced": joinsMonitored,
+		"input_distribution":                     kinds,
+		"implementation_outcomes":                opStatus,
+		"known_finding_lines":                    findingLines,
+		"harness_errors":                         len(harnessErrs),
 	}
 	assumptions := append([]string{
 		"the theorems are about the Lean model; the model is tied to /repo's working tree by this run's correspondence (same operations on the real Go code and on the compiled model, byte-exact diff)",
